@@ -676,3 +676,122 @@ def facet_stream(ctx, model_results: List[Dict[str, Any]]) -> Dict[str, int]:
             ctx.corr_break(nm, src[b][0], "facets of Model/XsdGen.v for the inferred constraint",
                            src[b][1])
     return out
+
+
+# --------------------------------------------------------------------------------------
+# multi-pattern stream: hand-built meta-models in which ONE value carries 3-4 patterns
+# (class invariant + constrained primitive + its parent [+ grandparent]) and length bounds
+# from different levels; the expected constraints are known by construction (spec level,
+# independent of infer_for_schema), the declaration order of the primitives is random.
+# --------------------------------------------------------------------------------------
+#: pattern families over [a-zA-Z_]; any choice of one member of different families has a
+#: non-empty intersection, each member can be broken alone, and greenery renders the
+#: intersection without class escapes such as \w or \d (no class equal to [0-9] or
+#: [a-zA-Z0-9_] is used: the retree parser refuses \d and \w).
+CHAIN_FAMILIES = {
+    "letters": ["^[a-zA-Z]*$", "^[a-zA-Z]+$", "^[a-zA-Z]{1,}$"],
+    "start": ["^[a-z][a-zA-Z_]*$", "^[a-m][a-zA-Z_]*$", "^(a|b|c|x)[a-zA-Z_]*$"],
+    "end": ["^[a-zA-Z_]*[A-Z]$", "^[a-zA-Z_]*[N-Z]$", "^[a-zA-Z_]*(X|Y|Z)$"],
+    "size": ["^[a-zA-Z_]{2,9}$", "^[a-zA-Z_]{3,}$", "^[a-zA-Z_]{2,7}$"],
+    "contains": ["^[a-zA-Z_]*x[a-zA-Z_]*$", "^[a-zA-Z_]*(ab|xy)[a-zA-Z_]*$"],
+}
+
+_CHAIN_TYPE_NAMES = ["Code", "Prefixed_code", "Product_code", "Special_product_code"]
+_CHAIN_FN_WORDS = ["letters", "start", "end", "size", "contains"]
+
+
+def gen_chain_model(rng: random.Random, index: int) -> Dict[str, Any]:
+    depth = rng.choice([2, 3, 3, 4])                       # levels of constrained primitives
+    n_patterns = rng.choice([3, 3, 4]) if depth >= 3 else 3
+    n_patterns = min(n_patterns, depth + 1)
+    fams = rng.sample(sorted(CHAIN_FAMILIES), n_patterns)
+    pats = [(f, rng.choice(CHAIN_FAMILIES[f])) for f in fams]
+    # places: the class invariant always carries one; the levels share the others so that
+    # the top-most ancestor always carries one when there are enough patterns
+    levels = list(range(depth))
+    class_pat = pats[0]
+    level_pats: Dict[int, tuple] = {}
+    rest = pats[1:]
+    order = [0] + rng.sample(levels[1:], len(levels) - 1)  # level 0 = top-most ancestor first
+    for lv, p in zip(order, rest):
+        level_pats[lv] = p
+    # length bounds from two different levels (compatible with all the "size" members)
+    len_levels = {}
+    if rng.random() < 0.8:
+        len_levels[rng.choice(levels)] = ("max", rng.choice([6, 7]))
+    if rng.random() < 0.5:
+        lv = rng.choice([l for l in levels if l not in len_levels] or levels)
+        if lv not in len_levels:
+            len_levels[lv] = ("min", rng.choice([2, 3]))
+    names = _CHAIN_TYPE_NAMES[:depth]
+    fn_defs, cp_defs = [], []
+    for f, p in pats:
+        fn_defs.append(
+            f"@verification\ndef matches_{f}(text: str) -> bool:\n"
+            f'    """Check the {f} of the text."""\n'
+            f'    return match("{p}", text) is not None\n')
+    for lv, name in enumerate(names):
+        decos = []
+        if lv in level_pats:
+            f = level_pats[lv][0]
+            decos.append(f'@invariant(\n    lambda self: matches_{f}(self),\n    "The {f} of {name} shall be fine."\n)')
+        if lv in len_levels:
+            kind, n = len_levels[lv]
+            op = "<=" if kind == "max" else ">="
+            decos.append(f'@invariant(\n    lambda self: len(self) {op} {n},\n    "The length of {name} shall be {kind} {n}."\n)')
+        base = "str" if lv == 0 else names[lv - 1]
+        cp_defs.append("\n".join(decos + [f"class {name}({base}, DBC):", f'    """Represent a {name}."""']) + "\n")
+    decl = list(range(depth))
+    style = index % 3
+    if style == 1:
+        decl.reverse()                                     # every child before its parent
+    elif style == 2:
+        rng.shuffle(decl)
+    leaf = names[-1]
+    optional = rng.random() < 0.3
+    f0 = class_pat[0]
+    if optional:
+        inv = f"not (self.code is not None) or matches_{f0}(self.code)"
+        ann, default = f"Optional[{leaf}]", " = None"
+    else:
+        inv = f"matches_{f0}(self.code)"
+        ann, default = leaf, ""
+    cls = (f'@invariant(\n    lambda self: {inv},\n    "The {f0} of the code shall be fine."\n)\n'
+           f'class Something(DBC):\n    """Represent something with a code."""\n\n'
+           f"    marker: str\n\n    code: {ann}\n\n"
+           f"    def __init__(self, marker: str, code: {ann}{default}) -> None:\n"
+           f"        self.marker = marker\n        self.code = code\n")
+    parts = [f'"""Provide a meta-model with several patterns on one value (#{index})."""\n\n',
+             mmg._HEADER, '\n\n__version__ = "V0.1"\n\n__xml_namespace__ = "https://example.com/chain"\n']
+    text = "".join(parts) + "\n\n" + "\n\n".join(fn_defs) + "\n\n" + \
+        "\n\n".join(cp_defs[i] for i in decl) + "\n\n" + cls
+    patterns = [p for _, p in pats]
+    mn = max([n for k, n in len_levels.values() if k == "min"] + [0])
+    mx = min([n for k, n in len_levels.values() if k == "max"] + [10 ** 6])
+    return {"index": index, "text": text, "seed": rng.getrandbits(32),
+            "spec": {"cls": "Something", "prop": "code", "optional": optional,
+                     "patterns": patterns, "families": fams, "min": mn,
+                     "max": None if mx == 10 ** 6 else mx,
+                     "depth": depth, "declaration_order": [names[i] for i in decl],
+                     "levels": {names[lv]: level_pats[lv][1] for lv in level_pats},
+                     "lengths": {names[lv]: list(v) for lv, v in len_levels.items()}},
+            "snippets_python": {"qualified_module_name.txt": "dummy_chain"}}
+
+
+def gen_chain_models(rng: random.Random, n: int) -> List[Dict[str, Any]]:
+    return [gen_chain_model(random.Random(rng.getrandbits(64)), i) for i in range(n)]
+
+
+def run_chain_models(models: List[Dict[str, Any]], n_values: int, timeout: int = 900) -> List[Dict[str, Any]]:
+    def one(m):
+        payload = {"mode": "chain", "model_text": m["text"], "seed": m["seed"], "spec": m["spec"],
+                   "n_values": n_values, "snippets_python": m["snippets_python"]}
+        try:
+            return lib.impl_call("xsd_run.py", payload, timeout=timeout)
+        except Exception as exc:  # noqa
+            if "timed out" in str(exc):
+                return {"stage": "timeout", "error": str(exc)[-300:]}
+            return {"stage": "harness-exception", "error": str(exc)[-1500:]}
+
+    with concurrent.futures.ThreadPoolExecutor(max_workers=min(8, lib.NCPU)) as pool:
+        return list(pool.map(one, models))
